@@ -16,6 +16,7 @@ import (
 	"fmt"
 	"os"
 	"strings"
+	"sync"
 
 	"github.com/dgraph-io/badger/v4/verifhook"
 
@@ -45,7 +46,32 @@ type Scenario struct {
 	// Key is the stable known-findings key of violations of this scenario
 	// ("" = Name).
 	Key string
+	// RaceUnsafe: the harness's own reference model is mutated by several
+	// threads of this scenario (fine under the cooperative scheduler, a harness
+	// race when free-running): skipped by RaceRun.
+	RaceUnsafe bool
 }
+
+// Notes is a goroutine-safe list of strings for what thread bodies report
+// (problems, outcomes): the same bodies also run free under the race detector.
+type Notes struct {
+	mu sync.Mutex
+	s  []string
+}
+
+func (n *Notes) Add(format string, a ...any) {
+	n.mu.Lock()
+	n.s = append(n.s, fmt.Sprintf(format, a...))
+	n.mu.Unlock()
+}
+
+func (n *Notes) List() []string {
+	n.mu.Lock()
+	defer n.mu.Unlock()
+	return append([]string{}, n.s...)
+}
+
+func (n *Notes) Len() int { return len(n.List()) }
 
 // Artefact is the replayable schedule of one execution.
 type Artefact struct {
@@ -70,6 +96,7 @@ func InstallDBHooks() {
 	if hooksInstalled {
 		return
 	}
+	sched.DumpOnHang = os.Getenv("VERIF_CONC_DEBUG") != ""
 	hooksInstalled = true
 	rd := func(kind string) {
 		if t := sched.Current(); t >= 0 && t < len(quietReads) && quietReads[t] {
@@ -99,6 +126,9 @@ func one(sc *Scenario, prefix []int) (*sched.Result, string, string, error) {
 		return nil, "", "", err
 	}
 	res := sched.Run(prefix, inst.Bodies)
+	if os.Getenv("VERIF_CONC_DEBUG") != "" {
+		fmt.Fprintf(os.Stderr, "conc: %s prefix=%v steps=%d deadlock=%v blocked=%v hung=%v panics=%v\n  last: %v\n", sc.Name, prefix, len(res.Steps), res.Deadlock, res.Blocked, res.Hung, res.Panics, tail(labels(res), 12))
+	}
 	what := ""
 	switch {
 	case res.Hung || res.Diverged != "":
@@ -126,7 +156,9 @@ func one(sc *Scenario, prefix []int) (*sched.Result, string, string, error) {
 	if inst.Outcome != nil {
 		out = inst.Outcome()
 	}
-	if inst.Close != nil {
+	if inst.Close != nil && len(res.Panics) == 0 && !res.Deadlock && !res.Hung {
+		// after a panic or an aborted execution locks of the instance may be left held
+		// (closing could block for ever): the instance is leaked, the process is short-lived
 		inst.Close()
 	}
 	return res, what, out, nil
@@ -286,4 +318,68 @@ func compact(res *sched.Result) string {
 	}
 	flush()
 	return strings.TrimSpace(sb.String())
+}
+
+// RaceRun is the free-running complement of Explore: the same scenario bodies
+// run as ordinary goroutines (no scheduler, the sync shim passes through) in a
+// binary built with the race detector, `iters` times per scenario.  The
+// cooperative scheduler's hand-offs are happens-before edges, so the detector
+// is blind under Explore; unsynchronised accesses between scheduling points
+// are caught here (the detector aborts the process with exit code 66, which
+// the caller reports).  This pass samples schedules; it decides nothing by
+// itself and is reported separately.
+func RaceRun(r *ev.Run, scs []Scenario, iters int) {
+	for i := range scs {
+		sc := &scs[i]
+		if sc.RaceUnsafe {
+			continue
+		}
+		for it := 0; it < iters; it++ {
+			if r.Expired() {
+				r.Cap("deadline")
+				return
+			}
+			inst, err := sc.New()
+			if err != nil {
+				r.HarnessError("scenario %s: %v", sc.Name, err)
+				break
+			}
+			var wg sync.WaitGroup
+			panics := make([]string, len(inst.Bodies))
+			for bi, body := range inst.Bodies {
+				wg.Add(1)
+				go func(bi int, body func()) {
+					defer wg.Done()
+					defer func() {
+						if p := recover(); p != nil {
+							panics[bi] = fmt.Sprint(p)
+						}
+					}()
+					body()
+				}(bi, body)
+			}
+			wg.Wait()
+			what := ""
+			for bi, p := range panics {
+				if p != "" {
+					what = fmt.Sprintf("thread %d panicked: %s", bi, p)
+				}
+			}
+			if what == "" && inst.Final != nil {
+				what = inst.Final(&sched.Result{})
+			}
+			if what == "" && inst.Close != nil {
+				inst.Close()
+			}
+			r.Add("race_pass_executions", 1)
+			if what != "" {
+				key := sc.Key
+				if key == "" {
+					key = sc.Name
+				}
+				r.Violate(ev.Violation{Engine: "race", Key: "conc-free " + key, What: fmt.Sprintf("%s, free-running goroutines: %s", sc.Name, what), Artefact: Artefact{Scenario: sc.Name}})
+				break
+			}
+		}
+	}
 }
